@@ -71,6 +71,15 @@ func newVM(log *[][]any) *otto.Otto {
 		*log = append(*log, args)
 		return call.Argument(0)
 	})
+	// CB(f): Go code that makes an API call (Value.Call) while the script is running and hands an
+	// error of that call back to the interpreter (the specification's host function of kind hostcb)
+	vm.Set("CB", func(call otto.FunctionCall) otto.Value {
+		v, err := call.Argument(0).Call(otto.UndefinedValue())
+		if err != nil {
+			panic(err)
+		}
+		return v
+	})
 	return vm
 }
 
